@@ -169,6 +169,11 @@ def _retry_worker(arg):
             out["result"] = ("ok", dds.eval(scen10.p_df_twice, n))
         elif kind == "fallback_inside":
             out["result"] = ("ok", dds.eval(scen10.p_fallback, k, cls))
+        elif kind == "load_after_caught_failure":
+            try:
+                out["result"] = ("ok", ("returned", dds.eval(scen10.p_load_after_caught_failure, k, cls)))
+            except BaseException as e:
+                out["result"] = ("ok", ("raised", type(e).__name__))
         elif kind == "fallback_outside":
             # the caller evaluates another pipeline from the handler of the failed evaluation
             try:
@@ -334,6 +339,14 @@ def retry_job(arg):
         return rep
     res = o["result"][1]
     rep.count("retry_scenarios")
+    if kind == "load_after_caught_failure":
+        # nothing was ever kept at the loaded path: the reader cannot have a value (an error is the honest outcome)
+        if res[0] == "returned":
+            bad("a kept function loaded the path of a kept call whose failure had been caught and got %r; the evaluation returned it" % (res[1],), "load-of-failed-path-served")
+        if o["loads"]["/c10r/flaky"][0] == "ok" and o["loads"]["/c10r/flaky"][1] is not None:
+            bad("the reader's path serves %r although the path it loads was never produced" % (o["loads"]["/c10r/flaky"][1],), "load-of-failed-path-served")
+        rep.nontriv(("c10retry",) + tuple(arg))
+        return rep
     if kind in ("fallback_inside", "fallback_outside"):
         want = ("fallback", True, ("value-of-good", k)) if kind == "fallback_inside" else ("fallback", True, ("good-only", ("value-of-good", k)))
         if res != want:
@@ -415,6 +428,7 @@ def run(tier, seed):
             rjobs.append(("retry", store, k, cls, 1 + ci % 3))
         rjobs.append(("df_twice", store, 0, "ValueError", 3))
         rjobs.append(("fallback_inside", store, 5, "ValueError", 1))
+        rjobs.append(("load_after_caught_failure", store, 7, "ValueError", 1))
         rjobs.append(("fallback_outside", store, 6, "KeyError", 1))
     ljobs = [(store, cls, kl) for store in ("local", "memory", "local_lru") for cls in ("ValueError", "KeyboardInterrupt") for kl in (False, True)]
     mjobs = [(store, cls) for store in ("local", "local_lru", "local_lru_all") for cls in ("ValueError", "KeyboardInterrupt")]
